@@ -1,4 +1,4 @@
-import Proofs.BTreeZoneRecord
+import Proofs.BTreeZoneContent
 /-!
 # C20 — B-tree zone flags, delegation index and bounds are a function of zone content
 
@@ -153,6 +153,69 @@ example : TxnWf ⟨true, [.put [] soa, .put nA ns, .delRds nXA ns, .delName nC, 
   intro op hop
   simp only [List.mem_cons, List.mem_nil_iff, or_false] at hop
   rcases hop with rfl | rfl | rfl | rfl | rfl <;> simp [OpWf, NoInnerEmpty, KeyWf, nA, nXA, nC, soa, ns, a] <;> decide
+
+/-! ## "a function of zone content" / "in any record order" -/
+
+/-- **"the derived state is exactly what the documentation defines from the zone content alone … (including the
+initial load, in any record order)"**, literally: whatever two histories of transactions produced them - different
+load orders, records added and removed on the way, different numbers of transactions - two committed states with
+the same content (owner names and the rdataset keys they hold) are *equal*: same nodes in the same order with the
+same flags, same delegation index. -/
+theorem derived_state_function_of_content (cfg : Cfg) (hc : WfCfg cfg) (init₁ init₂ : Bool) (h₁ h₂ : List Txn)
+    (hw₁ : ∀ t ∈ h₁, TxnWf t) (hw₂ : ∀ t ∈ h₂, TxnWf t) :
+    match runHist intended cfg (initState init₁) h₁, runHist intended cfg (initState init₂) h₂ with
+    | some s₁, some s₂ => content s₁.1 = content s₂.1 → s₁ = s₂
+    | _, _ => True := by
+  have g₁ := runHist_good hc (zGood_init cfg init₁) hw₁ (histGuard_intended cfg _ h₁)
+  have g₂ := runHist_good hc (zGood_init cfg init₂) hw₂ (histGuard_intended cfg _ h₂)
+  cases r₁ : runHist intended cfg (initState init₁) h₁ with
+  | none => trivial
+  | some s₁ =>
+    cases r₂ : runHist intended cfg (initState init₂) h₂ with
+    | none => trivial
+    | some s₂ =>
+      obtain ⟨N₁, D₁⟩ := s₁
+      obtain ⟨N₂, D₂⟩ := s₂
+      rw [r₁] at g₁; rw [r₂] at g₂
+      intro hcont
+      exact zstate_of_content g₁ g₂ hcont
+
+/-- non-vacuity: the nested cuts `a`, `b.a` with `x.b.a` loaded in two opposite orders, once in one transaction and
+once in three (with a record added and deleted again on the way), give the same content - and, by the theorem, the
+same state; the code before the repairs gave two different states (`flags_eq_spec_fails_D16_load_order`). -/
+example :
+    (runHist intended cfgRel (initState false)
+      [⟨true, [.put [] soa, .put nXBA a, .put nBA ns, .put nA ns], true⟩]).map (fun s => content s.1)
+    = (runHist intended cfgRel (initState true)
+      [⟨true, [.put nA ns, .put nC a], true⟩, ⟨false, [.put nBA ns, .put [] soa], true⟩,
+       ⟨false, [.delName nC, .put nXBA a], true⟩]).map (fun s => content s.1) := by decide
+
+/-- **`Delegations.get_delegation`** (the index API behind "whether the name is at or below a delegation"), after
+any history, for every lower-case query name: if some delegation point `d` (by the content definition) is at or
+above the name, the answer is `(d, name is strictly below d)`; if none is, the answer is `(None, False)`. -/
+theorem get_delegation_eq_spec (cfg : Cfg) (hc : WfCfg cfg) (init : Bool) (h : List Txn) (hw : ∀ t ∈ h, TxnWf t)
+    (name : Name) (hn : lowerName name = name) :
+    match runHist intended cfg (initState init) h with
+    | none => True
+    | some (nodes, delegs) =>
+      (∀ d, lowerName d = d → isDelegSpec cfg nodes d = true → isSubdomain name d = true →
+          getDelegation delegs name = (some d, properSub name d)) ∧
+      ((∀ d, lowerName d = d → isDelegSpec cfg nodes d = true → isSubdomain name d = false) →
+          getDelegation delegs name = (none, false)) := by
+  have g := runHist_good hc (zGood_init cfg init) hw (histGuard_intended cfg _ h)
+  cases r : runHist intended cfg (initState init) h with
+  | none => trivial
+  | some s =>
+    obtain ⟨N, D⟩ := s
+    rw [r] at g
+    exact getDelegation_spec g hn
+
+/-- non-vacuity: on `hCut` the index answers `(a, strictly below)` for `x.a`, `(a, not strictly)` for `a` and
+`(None, False)` for `c`. -/
+example :
+    (match runHist intended cfgAbs (initState true) hCut with
+     | some (_, d) => [getDelegation d abXA, getDelegation d (ab 97), getDelegation d (ab 99)]
+     | none => []) = [(some (ab 97), true), (some (ab 97), false), (none, false)] := by decide
 
 /-! ## bounds -/
 
